@@ -62,6 +62,11 @@ type Policy struct {
 	// a writer blocked by back-pressure must not keep its own endpoint from reading.
 	Window  int `json:"window"`
 	StallAt int `json:"stall_at"`
+	// DuringWrite: segments of this direction are delivered while the RECEIVING endpoint's own writer is inside a network
+	// Write (held at its entry by a gate, before the wire has copied its buffer), and that Write is released only after the
+	// endpoint's reader has consumed them and come back for more: reader and writer of one connection provably overlap.
+	// Everything is bounded by short timeouts, so a transport that serialises the two just loses the overlap.
+	DuringWrite bool `json:"during_write"`
 }
 
 // Script is one session.
@@ -73,6 +78,14 @@ type Script struct {
 	RBuf  []int  `json:"rbuf"`         // application read buffer sizes (cycled); default 4096
 	Lock  bool   `json:"lockstep"`     // writers alternate (client write, server write, ...) instead of running free
 	WaitQ bool   `json:"quiesce_each"` // wait for quiescence (and log it) after every write
+	// Final: after everything else the writer of direction Final.D writes N more bytes and closes its connection at once;
+	// the reader of that direction must receive all of it before it sees the end.  Together: the network hands over the
+	// last bytes and the end of the stream in ONE Read (n > 0, io.EOF), as the io.Reader contract allows.
+	Final struct {
+		D        string `json:"d"`
+		N        int    `json:"n"`
+		Together bool   `json:"together"`
+	} `json:"final"`
 	// Tap, if set, sees every byte an endpoint puts on the wire (dir, bytes), in order.
 	Tap func(dir string, b []byte) `json:"-"`
 }
@@ -83,17 +96,21 @@ type Maker func(raw net.Conn) (net.Conn, error)
 const waitLimit = 20 * time.Second
 
 type side struct {
-	name      string // "c" | "s"
-	dirOut    string // direction this side writes: c2s | s2c
-	raw       *wire.Conn
-	app       net.Conn
-	writes    []int
-	wdone     int64 // bytes whose Write returned
-	deliv     int64 // bytes this side's reader has received (of the OTHER direction)
-	rdEnded   int32 // the reader of this side has ended (its Read returned an error)
-	wFinished int32 // this side's writer has performed all of its writes
-	firstWr   chan struct{}
-	once      sync.Once
+	name         string // "c" | "s"
+	dirOut       string // direction this side writes: c2s | s2c
+	raw          *wire.Conn
+	app          net.Conn
+	writes       []int
+	wdone        int64 // bytes whose Write returned
+	deliv        int64 // bytes this side's reader has received (of the OTHER direction)
+	rdEnded      int32 // the reader of this side has ended (its Read returned an error)
+	wFinished    int32 // this side's writer has performed all of its writes
+	firstWr      chan struct{}
+	once         sync.Once
+	finalPending int32         // the final burst of this side is being written: the pump holds it until the side has closed
+	dataPhase    int32         // this side's application writer has started
+	inWrite      int32         // this side is held at the entry of a network Write
+	release      chan struct{} // the pump lets the held Write go on
 }
 
 // Result tells the caller how far the session got.
@@ -107,8 +124,36 @@ type Result struct {
 // Run executes the script. after, if non-nil, runs after the final quiescence with both app conns still open.
 func Run(w *vt.Writer, mkClient, mkServer Maker, sc *Script, after func(l *wire.Link, c, s net.Conn)) Result {
 	l := wire.NewLink(false, 0)
-	cl := &side{name: "c", dirOut: "c2s", raw: l.A, writes: sc.CW, firstWr: make(chan struct{})}
-	sv := &side{name: "s", dirOut: "s2c", raw: l.B, writes: sc.SW, firstWr: make(chan struct{})}
+	cl := &side{name: "c", dirOut: "c2s", raw: l.A, writes: sc.CW, firstWr: make(chan struct{}), release: make(chan struct{}, 1)}
+	sv := &side{name: "s", dirOut: "s2c", raw: l.B, writes: sc.SW, firstWr: make(chan struct{}), release: make(chan struct{}, 1)}
+	gate := func(sd *side) func(*wire.Conn, int) {
+		first := true
+		return func(_ *wire.Conn, n int) {
+			if n == 0 || atomic.LoadInt32(&sd.dataPhase) == 0 {
+				return
+			}
+			limit := 3 * time.Millisecond
+			if first {
+				first, limit = false, 60*time.Millisecond
+			}
+			select { // (a stale release from an earlier round)
+			case <-sd.release:
+			default:
+			}
+			atomic.StoreInt32(&sd.inWrite, 1)
+			select {
+			case <-sd.release:
+			case <-time.After(limit):
+			}
+			atomic.StoreInt32(&sd.inWrite, 0)
+		}
+	}
+	if sc.C2S.DuringWrite { // c2s segments arrive while the SERVER is inside a Write
+		l.B.WriteGate = gate(sv)
+	}
+	if sc.S2C.DuringWrite {
+		l.A.WriteGate = gate(cl)
+	}
 	if sc.C2S.Window > 0 {
 		l.A.SetWindow(sc.C2S.Window)
 	}
@@ -215,8 +260,26 @@ func Run(w *vt.Writer, mkClient, mkServer Maker, sc *Script, after func(l *wire.
 						"note": "while the receiving endpoint's own writer is blocked by back-pressure"})
 				}
 			}
+			if atomic.LoadInt32(&src.finalPending) == 1 {
+				// the final burst: wait until the writer has closed, then hand over everything and the end of the stream
+				dl := time.Now().Add(waitLimit)
+				for time.Now().Before(dl) && !src.raw.State().Closed {
+					time.Sleep(100 * time.Microsecond)
+				}
+				buf := src.raw.Take()
+				if sc.Tap != nil {
+					sc.Tap(src.dirOut, buf)
+				}
+				if sc.Final.Together {
+					dst.raw.DeliverWithEOF(buf)
+				} else {
+					dst.raw.Deliver(buf)
+					dst.raw.DeliverEOF()
+				}
+				return
+			}
 			// wait for bytes
-			for src.raw.Pending() == 0 {
+			for src.raw.Pending() == 0 && atomic.LoadInt32(&src.finalPending) == 0 {
 				select {
 				case <-stop:
 					return
@@ -227,6 +290,9 @@ func Run(w *vt.Writer, mkClient, mkServer Maker, sc *Script, after func(l *wire.
 					dst.raw.DeliverEOF()
 					return
 				}
+			}
+			if atomic.LoadInt32(&src.finalPending) == 1 {
+				continue
 			}
 			if p.DelayUs > 0 {
 				time.Sleep(time.Duration(p.DelayUs) * time.Microsecond)
@@ -266,7 +332,37 @@ func Run(w *vt.Writer, mkClient, mkServer Maker, sc *Script, after func(l *wire.
 						list = list[1:]
 					}
 				}
+				held := false
+				if p.DuringWrite && len(dst.writes) > 0 && atomic.LoadInt32(&dst.dataPhase) == 0 {
+					// the receiving endpoint's application has not started writing yet: give it a moment
+					dl := time.Now().Add(50 * time.Millisecond)
+					for time.Now().Before(dl) && atomic.LoadInt32(&dst.dataPhase) == 0 {
+						time.Sleep(50 * time.Microsecond)
+					}
+				}
+				if p.DuringWrite && atomic.LoadInt32(&dst.dataPhase) == 1 && atomic.LoadInt32(&dst.wFinished) == 0 {
+					// hold the segment until the receiving endpoint's writer is inside a network Write
+					dl := time.Now().Add(50 * time.Millisecond)
+					for time.Now().Before(dl) && atomic.LoadInt32(&dst.inWrite) == 0 && atomic.LoadInt32(&dst.wFinished) == 0 {
+						time.Sleep(50 * time.Microsecond)
+					}
+					held = atomic.LoadInt32(&dst.inWrite) == 1
+				}
 				dst.raw.Deliver(buf[:k])
+				if held {
+					// ... and let that Write go on only after the endpoint's reader has taken the segment and come back
+					dl := time.Now().Add(50 * time.Millisecond)
+					for time.Now().Before(dl) {
+						if st := dst.raw.State(); st.Inbox == 0 && (st.Parked || st.Closed) {
+							break
+						}
+						time.Sleep(50 * time.Microsecond)
+					}
+					select {
+					case dst.release <- struct{}{}:
+					default:
+					}
+				}
 				forwarded += k
 				buf = buf[k:]
 			}
@@ -301,6 +397,7 @@ func Run(w *vt.Writer, mkClient, mkServer Maker, sc *Script, after func(l *wire.
 	timeout := time.After(waitLimit)
 	startWriter := func(sd *side, wg *sync.WaitGroup, turn chan struct{}, next chan struct{}) {
 		defer wg.Done()
+		atomic.StoreInt32(&sd.dataPhase, 1)
 		off := 0
 		for _, n := range sd.writes {
 			if turn != nil {
@@ -578,6 +675,37 @@ func Run(w *vt.Writer, mkClient, mkServer Maker, sc *Script, after func(l *wire.
 	}
 	if after != nil {
 		after(l, cl.app, sv.app)
+	}
+	if sc.Final.N > 0 && (sc.Final.D == "c2s" || sc.Final.D == "s2c") {
+		wr, rd := cl, sv
+		if sc.Final.D == "s2c" {
+			wr, rd = sv, cl
+		}
+		atomic.StoreInt32(&wr.finalPending, 1)
+		buf := make([]byte, sc.Final.N)
+		Fill(wr.dirOut, int(atomic.LoadInt64(&wr.wdone)), buf)
+		w.Emit(vt.Ev{"event": "WriteCall", "d": wr.dirOut, "n": sc.Final.N})
+		ret, err := wr.app.Write(buf)
+		scribble(buf)
+		ev := vt.Ev{"event": "WriteRet", "d": wr.dirOut, "n": sc.Final.N, "ret": ret, "err": ""}
+		if err != nil {
+			ev["err"] = err.Error()
+		}
+		w.Emit(ev)
+		if err == nil {
+			atomic.AddInt64(&wr.wdone, int64(ret))
+			w.Emit(vt.Ev{"event": "HalfClose", "d": wr.dirOut, "together": sc.Final.Together})
+			wr.app.Close()
+			// the reader of that direction ends by itself, having received everything
+			dl := time.Now().Add(waitLimit)
+			for time.Now().Before(dl) && atomic.LoadInt32(&rd.rdEnded) == 0 {
+				time.Sleep(200 * time.Microsecond)
+			}
+			if atomic.LoadInt32(&rd.rdEnded) == 0 {
+				w.Emit(vt.Ev{"event": "Quiesce", "d": wr.dirOut, "delivered": atomic.LoadInt64(&rd.deliv), "wdone": atomic.LoadInt64(&wr.wdone),
+					"note": "the peer closed after its last write; the reader has neither received everything nor seen the end"})
+			}
+		}
 	}
 	w.Emit(vt.Ev{"event": "Close"})
 	cl.app.Close()
